@@ -211,6 +211,72 @@ def run_names(ctx, lhs):
                         'got': got, 'want': want})
 
 
+CTX_ATTRS = ['is_admin_project', 'project_id', 'user_id', 'domain_id',
+             'system_scope', 'user_domain_id', 'project_domain_id',
+             'is_admin']
+
+
+def run_context(ctx, attr):
+    """Credentials given as an oslo.context RequestContext (its policy
+    values are the credential attributes), with the library's debug logging
+    off and on: a generic check on a context attribute compares that
+    attribute's value, whichever way the context was built."""
+    import logging
+    from oslo_context import context
+    from oslo_policy import policy
+    common.set_ctx(ctx)
+    kw = {'user_id': 'u1', 'roles': ['member']}
+    kw['is_admin_project'] = bool(ctx.bool('is_admin_project'))
+    kw['is_admin'] = bool(ctx.bool('is_admin'))
+    for name, menu in (('project_id', [None, 'p1']),
+                       ('domain_id', [None, 'd1']),
+                       ('system_scope', [None, 'all']),
+                       ('user_domain_id', [None, 'ud']),
+                       ('project_domain_id', [None, 'pd'])):
+        kw[name] = ctx.choice('ctx.' + name, menu)
+        if kw[name] is not None:
+            kw[name] = str(kw[name])
+    rc = context.RequestContext(**kw)
+    values = rc.to_policy_values()
+    rhs = str(ctx.choice('rhs', ['True', 'False', 'None', 'p1', 'd1', 'all',
+                                 'u1', 'ud', 'pd', '%(k)s']))
+    target = {'k': ctx.choice('tk', [None, True, False, 'p1', 'all'])} \
+        if rhs == '%(k)s' else {}
+    debug = bool(ctx.bool('debug_logging'))
+    if attr not in values:
+        want = False
+    else:
+        r = str(target['k']) if rhs == '%(k)s' else rhs
+        want = r == str(values[attr])
+    text = '%s:%s' % (attr, rhs)
+    enf = common.mk_enforcer(rules=policy.Rules.from_dict({'p': text}))
+    if debug:
+        logging.disable(logging.NOTSET)
+        policy.LOG.setLevel(logging.DEBUG)
+        if not policy.LOG.handlers:
+            policy.LOG.addHandler(logging.NullHandler())
+        policy.LOG.propagate = False
+    try:
+        got = bool(enf.enforce('p', target, rc))
+    finally:
+        if debug:
+            policy.LOG.setLevel(logging.NOTSET)
+            logging.disable(logging.CRITICAL)
+    ctx.cover('context:evaluated')
+    if debug:
+        ctx.cover('context:debug')
+    ctx.observe('check', text)
+    ctx.observe('decision', got)
+    ctx.require(got == want, 'context:decision',
+                detail={'check': text, 'context': {k: repr(v) for k, v in
+                                                   kw.items()},
+                        'debug': debug, 'got': got, 'want': want})
+
+
+def cubes_context(tier, seed):
+    return [{'attr': a} for a in CTX_ATTRS]
+
+
 def cubes_names(tier, seed):
     return [{'lhs': n} for n in SPECIAL_NAMES]
 
@@ -259,13 +325,15 @@ def cubes_generic(tier, seed):
 
 HARNESSES = {'generic': {'fn': run_generic, 'cubes': cubes_generic,
                          'concretize_limit': 3000000},
-            'names': {'fn': run_names, 'cubes': cubes_names}}
+            'names': {'fn': run_names, 'cubes': cubes_names},
+            'context': {'fn': run_context, 'cubes': cubes_context}}
 REQUIRED_COVER = ['literal', 'path', 'allowed', 'denied',
-                  'missing-target-key', 'dont-care', 'names:evaluated']
+                  'missing-target-key', 'dont-care', 'names:evaluated',
+                  'context:evaluated', 'context:debug']
 
 
 def cube_weight(h, p):
-    if h == 'names':
+    if h in ('names', 'context'):
         return 500
     w = 8 ** p['lhs'].count('.') * (3 if p['rhs_kind'] != 'literal' else 1)
     if p.get('top') == 'list':
